@@ -15,6 +15,7 @@ import rx
 
 from ..common import Check, Outcome, Snap, subscribe, bootstrap
 from .. import shadow_store
+from .. import progs
 from ..shadow_store import ShadowMemoryStore
 
 rs = bootstrap()
@@ -237,7 +238,7 @@ class C14(Check):
     ASSUMPTIONS = ['only calls the store contract allows are issued in (a): no read of a never-added or deleted index',
                    'del_map is not part of the property (the quantifier does not list it) and is only exercised through group_by in (b)']
     ANCHORS = ['rxsci/state/memory_store.py', 'rxsci/state/store.py']
-    REQUIRED_TAGS = ['dtype=int', 'dtype=uint', 'dtype=float', 'dtype=bool', 'dtype=obj', 'dtype=mapper', 'default', 'no-default',
+    REQUIRED_TAGS = ['default-value-that-is-callable', 'dtype=int', 'dtype=uint', 'dtype=float', 'dtype=bool', 'dtype=obj', 'dtype=mapper', 'default', 'no-default',
                      'direct', 'manager', 'sparse', 'descending', 'pipeline', 'wide', 'far', 'stepwise-walk', 'abandoned-walk', 'type-names-built-at-run-time', 'large-maps']
     REQUIRED_OBSERVED = ['walk_steps', 'untouched_slots_checked_in_walks', 'store.add_key', 'store.set', 'store.get', 'store.del_key', 'store.iterate',
                          'store.add_map', 'store.get_map', 'store.iterate_map', 'slot_rereads']
@@ -267,7 +268,9 @@ class C14(Check):
                 default = None
                 if dt != 'mapper' and rng.random() < 0.4:
                     default = {'int': rng.choice([0, -1, 5]), 'uint': rng.choice([0, 7]), 'float': rng.choice([0.0, 1.5]),
-                               'bool': rng.choice([False, True]), 'obj': rng.choice([0, 'd', [1]])}[dt]
+                               'bool': rng.choice([False, True]),
+                               # (an obj default may be a value that happens to be callable - a converter, a handler: it is stored, not called)
+                               'obj': rng.choice([0, 'd', [1], {'callable': 'str'}, {'callable': 'function'}, {'callable': 'partial'}])}[dt]
                 states.append({'dtype': dt, 'default': default})
             h += 1                      # (history cases only: the domains must not beat with the pipeline turn)
             dom = doms[h % len(doms)]
@@ -387,8 +390,10 @@ class C14(Check):
         for st in states:
             out.tags.append('dtype=' + st['dtype'])
             out.tags.append('default' if st['default'] is not None else 'no-default')
+            if isinstance(st['default'], dict) and 'callable' in st['default']:
+                out.tags.append('default-value-that-is-callable')
         if case['via'] == 'direct':
-            stores = [ShadowMemoryStore(name='s0', data_type=DT(states[0]['dtype']), default_value=states[0]['default'])]
+            stores = [ShadowMemoryStore(name='s0', data_type=DT(states[0]['dtype']), default_value=progs.pad_value(states[0]['default']))]
             call = lambda s, op, *a: getattr(stores[s], op)(*a)                     # noqa: E731
         else:
             from rxsci.state.state_topology import StateTopology
@@ -398,7 +403,7 @@ class C14(Check):
                 if st['dtype'] == 'mapper':
                     ids.append(topo.create_mapper('m%d' % j))
                 else:
-                    ids.append(topo.create_state('s%d' % j, DT(st['dtype']), st['default']))
+                    ids.append(topo.create_state('s%d' % j, DT(st['dtype']), progs.pad_value(st['default'])))
             mgr = rs.state.StoreManager(store_factory=ShadowMemoryStore)
             mgr.set_topology(topo)
             store = mgr.get_store()
